@@ -440,14 +440,12 @@ namespace occa {
       ++it;
 
       // If we're merging two json objects, recursively merge them
-      if (val.isObject() && has(key)) {
-        // Reuse prefetch
-        json &oldVal = value_.object[key];
-        if (oldVal.isObject()) {
-          oldVal += val;
-        } else {
-          oldVal = val;
-        }
+      // (key is the literal member name, it must not be split as a '/'-path)
+      jsonObject::iterator oldIt = value_.object.find(key);
+      if (val.isObject() &&
+          (oldIt != value_.object.end()) &&
+          oldIt->second.isObject()) {
+        oldIt->second += val;
       } else {
         value_.object[key] = val;
       }
